@@ -269,8 +269,13 @@ def abs_apply(m, op, has_net=None):
                 m[(new, d)] = r
 
 
+MAX_FAILS_PER_SHARD = 40      # a broken tree fails everywhere: keep the run short, the verdict is the same
+
+
 def check_state(ctx, case, cache, m, where):
     """Coherent + abstract map + lookups on the real object; returns False after ctx.fail"""
+    if len(ctx.failures) >= MAX_FAILS_PER_SHARD:
+        return True
     why = coherence_problem(cache)
     if why:
         ctx.fail("incoherent", case, "%s: %s" % (where, why), digest=cache_digest(cache))
@@ -285,6 +290,8 @@ def check_state(ctx, case, cache, m, where):
 
 
 def check_lookups(ctx, case, cache, m, nets, dnets, where):
+    if len(ctx.failures) >= MAX_FAILS_PER_SHARD:
+        return True
     for s in nets:
         for d in dnets:
             ri = cache.get_router_info(s, d)
@@ -320,7 +327,8 @@ def run_real_seq(ctx, case, ops, every=False, lookups=True):
         except Exception as e:  # noqa
             r = err_kind(e)
             if not (r == "inconsistent" and op[0] == "d" and op[2] is None and op[3] is None):
-                ctx.fail("exception", case, "op %d %r raised %s: %s" % (i, op, type(e).__name__, e), op_index=i)
+                if len(ctx.failures) < MAX_FAILS_PER_SHARD:
+                    ctx.fail("exception", case, "op %d %r raised %s: %s" % (i, op, type(e).__name__, e), op_index=i)
                 if not every:
                     return "err:" + r
                 replies.append({"r": "err", "k": r, "d": cache_digest(cache)})
